@@ -309,6 +309,14 @@ def gen_leaf(rng, w, scope, numeric=True, equality=True, must_mention=None, **kw
             return c
     if equality and r < 0.4 and len(scope) >= 2 and not must_mention:
         a, b = rng.sample([v for v, _ in scope], 2)
+        if w.constants and rng.random() < 0.25:
+            # a variable against a domain constant it can be bound to
+            ta = dict(scope)[a]
+            ks = [k for k, kt in w.constants.items() if w.subtype(kt, ta)]
+            if ks:
+                b = rng.choice(ks)
+                if rng.random() < 0.5:
+                    a, b = b, a
         e = ["=", a, b]
         return e if rng.random() < 0.5 else ["not", e]
     return gen_literal(rng, w, scope, must_mention=must_mention, **kw)
